@@ -257,6 +257,37 @@ func (p *printer) sp() string {
 	return " "
 }
 
+// attrs joins the attributes of a tag, now and then in the opposite order (the order of attributes
+// carries no meaning).
+func (p *printer) attrs(as ...string) string {
+	var present []string
+	for _, a := range as {
+		if a != "" {
+			present = append(present, a)
+		}
+	}
+	p.ws++
+	if (p.ws*2654435761)>>30 == 0 {
+		for i, j := 0, len(present)-1; i < j; i, j = i+1, j-1 {
+			present[i], present[j] = present[j], present[i]
+		}
+	}
+	out := ""
+	for _, a := range present {
+		out += p.sp() + a
+	}
+	return out
+}
+
+// kindText is, now and then, the attribute kind="text" of a content block.
+func (p *printer) kindText() string {
+	p.ws++
+	if (p.ws*2654435761)>>29 == 0 {
+		return ` kind="text"`
+	}
+	return ""
+}
+
 // bar is the pipe before a print directive, now and then with a space in front.
 func (p *printer) bar() string {
 	p.ws++
@@ -282,37 +313,76 @@ func (p *printer) cmds(cs []Cmd) {
 	}
 }
 
-func (p *printer) callName(c *Call) (string, string) {
+// ResolveCallName is the language's rule for the name written in a {call}: a leading dot means the
+// file's own namespace; otherwise a first segment that is the last segment of one of the file's aliases
+// stands for that alias; any other name is absolute.
+func ResolveCallName(f *File, spelled string) string {
+	if strings.HasPrefix(spelled, ".") {
+		return f.Namespace + spelled
+	}
+	first, rest := spelled, ""
+	if i := strings.Index(spelled, "."); i >= 0 {
+		first, rest = spelled[:i], spelled[i:]
+	}
+	for _, a := range f.Aliases {
+		if a[strings.LastIndex(a, ".")+1:] == first {
+			return a + rest
+		}
+	}
+	return spelled
+}
+
+// CallSpellings lists the ways the call's target can be written in the file, the one its Style asks for
+// first; only spellings that resolve to the target are returned (an alias may capture a qualified name).
+func CallSpellings(f *File, c *Call) []string {
 	ns := c.Target[:strings.LastIndex(c.Target, ".")]
 	short := c.Target[strings.LastIndex(c.Target, "."):]
-	name := c.Target
+	var relative, exact, prefix []string
+	if ns == f.Namespace {
+		relative = []string{short}
+	}
+	best := ""
+	for _, a := range f.Aliases {
+		if a == ns {
+			exact = []string{ns[strings.LastIndex(ns, ".")+1:] + short}
+		}
+		if strings.HasPrefix(ns, a+".") && len(a) > len(best) {
+			best = a
+		}
+	}
+	if best != "" {
+		prefix = []string{best[strings.LastIndex(best, ".")+1:] + ns[len(best):] + short}
+	}
+	full := []string{c.Target}
+	var order [][]string
 	switch c.Style {
-	case 0:
-		if ns == p.file.Namespace {
-			name = short
-		}
+	case 0, 3:
+		order = [][]string{relative, full, exact, prefix}
 	case 2:
-		for _, a := range p.file.Aliases {
-			if a == ns {
-				name = ns[strings.LastIndex(ns, ".")+1:] + short
-			}
-		}
-	case 3:
-		if ns == p.file.Namespace {
-			name = short
-		}
-		return "", " name=" + AttrQuote(name)
+		order = [][]string{exact, full, relative, prefix}
 	case 4:
-		// the longest aliased proper prefix of the namespace stands for its last segment
-		best := ""
-		for _, a := range p.file.Aliases {
-			if strings.HasPrefix(ns, a+".") && len(a) > len(best) {
-				best = a
+		order = [][]string{prefix, full, relative, exact}
+	default:
+		order = [][]string{full, relative, exact, prefix}
+	}
+	var out []string
+	for _, group := range order {
+		for _, sp := range group {
+			if ResolveCallName(f, sp) == c.Target {
+				out = append(out, sp)
 			}
 		}
-		if best != "" {
-			name = best[strings.LastIndex(best, ".")+1:] + ns[len(best):] + short
-		}
+	}
+	return out
+}
+
+func (p *printer) callName(c *Call) (string, string) {
+	name := c.Target
+	if sp := CallSpellings(p.file, c); len(sp) > 0 {
+		name = sp[0]
+	}
+	if c.Style == 3 {
+		return "", " name=" + AttrQuote(name)
 	}
 	return " " + name, ""
 }
@@ -386,17 +456,20 @@ func (p *printer) cmd(c *Cmd) {
 	case "let":
 		b.WriteString(tag("let" + p.sp() + "$" + c.Var + ":" + p.sp() + PrintExpr(c.Expr) + p.sp() + "/"))
 	case "letc":
-		b.WriteString("{let $" + c.Var + "}")
+		// (the kind attribute is accepted and means nothing to this implementation; "text" is also what
+		// the official compiler would treat the same way: the captured text is data when printed)
+		b.WriteString("{let $" + c.Var + p.kindText() + "}")
 		p.cmds(c.Body)
 		b.WriteString("{/let}")
 	case "call":
 		name, nameAttr := p.callName(c.Call)
-		inner := "call" + name + nameAttr
+		dataAttr := ""
 		if c.Call.DataAll {
-			inner += p.sp() + `data="all"`
+			dataAttr = `data="all"`
 		} else if c.Call.Data != nil {
-			inner += p.sp() + "data=" + AttrQuote(PrintExpr(c.Call.Data))
+			dataAttr = "data=" + AttrQuote(PrintExpr(c.Call.Data))
 		}
+		inner := "call" + name + p.attrs(strings.TrimSpace(nameAttr), dataAttr)
 		if len(c.Call.Params) == 0 {
 			b.WriteString(tag(inner + p.sp() + "/"))
 			return
@@ -409,17 +482,17 @@ func (p *printer) cmd(c *Cmd) {
 			}
 			switch {
 			case pr.IsBlock && pr.Style == 0:
-				b.WriteString("{param " + pr.Key + "}")
+				b.WriteString("{param " + pr.Key + p.kindText() + "}")
 				p.cmds(pr.Content)
 				b.WriteString("{/param}")
 			case pr.IsBlock:
-				b.WriteString("{param key=" + AttrQuote(pr.Key) + "}")
+				b.WriteString("{param" + p.attrs("key="+AttrQuote(pr.Key), strings.TrimSpace(p.kindText())) + "}")
 				p.cmds(pr.Content)
 				b.WriteString("{/param}")
 			case pr.Style == 0:
 				b.WriteString(tag("param" + p.sp() + pr.Key + ":" + p.sp() + PrintExpr(pr.Value) + p.sp() + "/"))
 			default:
-				b.WriteString(tag("param" + p.sp() + "key=" + AttrQuote(pr.Key) + p.sp() + "value=" + AttrQuote(PrintExpr(pr.Value)) + p.sp() + "/"))
+				b.WriteString(tag("param" + p.attrs("key="+AttrQuote(pr.Key), "value="+AttrQuote(PrintExpr(pr.Value))) + p.sp() + "/"))
 			}
 			b.WriteString(c.Gap)
 		}
@@ -437,11 +510,11 @@ func (p *printer) cmd(c *Cmd) {
 	case "debugger":
 		b.WriteString("{debugger}")
 	case "msg":
-		inner := "msg"
+		meaning := ""
 		if c.Meaning != "" {
-			inner += " meaning=" + AttrQuote(c.Meaning)
+			meaning = "meaning=" + AttrQuote(c.Meaning)
 		}
-		inner += " desc=" + AttrQuote(c.Desc)
+		inner := "msg" + p.attrs(meaning, "desc="+AttrQuote(c.Desc))
 		b.WriteString("{" + inner + "}")
 		p.inMsg = true
 		p.cmds(c.Body)
@@ -493,12 +566,16 @@ func PrintFile(f *File) string {
 			b.WriteString(" */" + nl)
 		}
 		b.WriteString("{template ." + t.Name)
+		ae, priv := "", ""
 		if t.Autoescape != "" {
-			b.WriteString(" autoescape=" + AttrQuote(t.Autoescape))
+			ae = "autoescape=" + AttrQuote(t.Autoescape)
 		}
 		if t.Private {
-			b.WriteString(` private="true"`)
+			priv = `private="true"`
+		} else if p.ws++; (p.ws*2654435761)>>29 == 0 {
+			priv = `private="false"`
 		}
+		b.WriteString(p.attrs(ae, priv))
 		b.WriteString("}")
 		if t.Header || t.BothDecls {
 			for _, pd := range t.Params {
